@@ -31,7 +31,21 @@ def entity_heap_invariant(sv):
                                                             z3.Select(H('Task', 'duration'), x) >= 0)))]
 
 
+def observation_heap_invariant(sv):
+    """Observations live in buffer 0, have whole durations and (rounded) whole data rates, and hold no data before they start.
+    Established by Observation.__init__ / parse_instrument_config (round) under the 'whole multiples' quantifier of C16."""
+    H = sv.heap
+    x = ('x', I)
+    WAITING = enum_code('RunStatus', 'WAITING')
+    return [('observation-shape', Q([x], lambda x: z3.And(
+        z3.Select(H('Observation', 'buffer_id'), x) == 0,
+        z3.Select(H('Observation', 'duration'), x) >= 0,
+        z3.Implies(z3.Select(H('Observation', 'status'), x) == WAITING, z3.Select(H('Observation', 'total_data_size'), x) == 0))))
+]
+
+
 REG.heap_invariants.append(entity_heap_invariant)
+REG.heap_invariants.append(observation_heap_invariant)
 
 
 REG.contract('Task.calculate_runtime',
